@@ -496,6 +496,9 @@ int __printf(void (*printchar_handler)(void *d, int c),
         switch (c)
         {
         default:
+            /* the format ends inside a directive: stay on the terminator */
+            if (!c)
+                --format;
             pc += (int)(format - begin + 1);
             do
                 printchar_handler(printchar_data, *begin);
